@@ -41,6 +41,10 @@ def _work(item):
         summ["n_geom"] = sum(1 for e in ev if e == "geom")
         summ["n_cb"] = sum(1 for e in ev if e.startswith("cb "))
         summ["pyexc"] = [e for e in ev if e.startswith("pyexc")]
+        try:
+            summ["truth"] = trace.truth_at_result(out, pb)
+        except Exception as exc:  # noqa
+            summ["truth"] = {"error": type(exc).__name__ + ": " + str(exc)[:100]}
     else:
         summ["events_tail"] = out["rec"].events[-12:]
     summ["convention_errors"] = out["rec"].extra.get("convention_errors", [])
